@@ -103,12 +103,62 @@ def extract_all(repo):
         return {"maxLineLen": same(a + b, "head line limits differ")}
     attempt(["maxLineLen"], max_line_len)
 
+    def fn_bodies(text):
+        """(name, body) of every fn item of a file (brace matched, nested fns included in their parent too)"""
+        out = []
+        for m in re.finditer(r"\bfn\s+([A-Za-z_][A-Za-z0-9_]*)", text):
+            try:
+                i = text.index("{", m.end())
+            except ValueError:
+                continue
+            depth, j = 0, i
+            while j < len(text):
+                ch_ = text[j]
+                if ch_ == "{":
+                    depth += 1
+                elif ch_ == "}":
+                    depth -= 1
+                    if depth == 0:
+                        break
+                j += 1
+            out.append((m.group(1), text[i:j + 1]))
+        return out
+
+    READ_LINE = r"\bread_line\(\s*[^,()]+,\s*[^,()]+,\s*([^()]+?)\s*\)"
+    LOOP = r"\b(for|loop|while)\b"
+
     def chunk_consts():
+        # the size line of a chunk: the read_line call of chunked_reader.rs that is NOT inside a looping function
+        # (the looping one reads the trailer section, see trailer_consts)
         ch = src("src/parsing/chunked_reader.rs")
         k = file_consts(ch)
-        lim = [resolve(m.group(1), k) for m in re.finditer(r"\bread_line\(\s*[^,()]+,\s*[^,()]+,\s*([^()]+?)\s*\)", ch)]
+        lim = []
+        for _, body in fn_bodies(ch):
+            if re.search(LOOP, body):
+                continue
+            lim += [resolve(m.group(1), k) for m in re.finditer(READ_LINE, body)]
         return {"chunkSizeLineLimit": same(lim, "chunk size line limit")}
     attempt(["chunkSizeLineLimit"], chunk_consts)
+
+    def trailer_consts():
+        # the trailer section after the last chunk: a function of chunked_reader.rs that calls read_line in a
+        # `for _ in 0..=N` / `0..N` loop; N bounds the number of (non-empty) trailer lines
+        ch = src("src/parsing/chunked_reader.rs")
+        k = file_consts(ch)
+        found = []
+        for _, body in fn_bodies(ch):
+            lims = [resolve(m.group(1), k) for m in re.finditer(READ_LINE, body)]
+            if not lims:
+                continue
+            m = re.search(r"\bfor\s+\w+\s+in\s+0\s*\.\.(=?)\s*([A-Za-z0-9_:]+)", body)
+            if not m:
+                continue
+            n = resolve(m.group(2), k)
+            found.append((same(lims, "trailer line limit"), n if m.group(1) == "=" else n - 1))
+        if len(found) != 1:
+            raise Missing("the loop that skips the trailer section (for _ in 0..=N { read_line(..) }) in chunked_reader.rs (found %d)" % len(found))
+        return {"trailerLineLimit": found[0][0], "maxTrailerLines": found[0][1]}
+    attempt(["trailerLineLimit", "maxTrailerLines"], trailer_consts)
 
     def max_buffer_len():
         ch = src("src/parsing/chunked_reader.rs")
@@ -224,7 +274,7 @@ def extract(repo):
         raise Missing("; ".join("%s (%s)" % kv for kv in sorted(missing.items())))
     return c
 
-LEAN_NAMES = ["maxLineLen", "chunkSizeLineLimit", "maxBufferLen", "connectBodyCap", "raceDelayMs"]
+LEAN_NAMES = ["maxLineLen", "chunkSizeLineLimit", "trailerLineLimit", "maxTrailerLines", "maxBufferLen", "connectBodyCap", "raceDelayMs"]
 
 def render(c):
     lines = ["/- GENERATED by tools/extract_consts.py from /repo/src — do not edit. -/",
